@@ -475,3 +475,52 @@ func TestNodeSizes(t *testing.T) {
 		}
 	})
 }
+
+// A growing trie, saved after every insert into a fresh store: the saves have (nearly) every size from 1 to beyond
+// 1000 (thorough: 2000) changed nodes; each store must hold exactly what the root needs.
+func TestSaveSizeSweep(t *testing.T) {
+	ev.Guard(t, "TestSaveSizeSweep", func() {
+		x := ev.SeedFor("TestSaveSizeSweep") | 1
+		next := func() uint64 { x ^= x << 13; x ^= x >> 7; x ^= x << 17; return x }
+		covered := map[int]bool{}
+		limit, passes := 1100, 3
+		if ev.Thorough() {
+			limit, passes = 2100, 4
+		}
+		for pass := 0; pass < passes; pass++ {
+			mpt := mptkit.NewTrie(util.NewMemoryNodeDB(), int64(pass), nil)
+			keys := 0
+			for mpt.GetChangeCount() < limit {
+				r := next()
+				p := fmt.Sprintf("%06x", r&0xffffff)
+				if _, err := mpt.Insert(util.Path(p), mptkit.Val([]byte{byte(r >> 24), byte(r >> 32), 0x3a})); err != nil {
+					t.Fatalf("insert: %v", err)
+				}
+				keys++
+				n := mpt.GetChangeCount()
+				if covered[n] && n%1000 > 3 {
+					continue
+				}
+				covered[n] = true
+				target := util.NewMemoryNodeDB()
+				if err := mpt.SaveChanges(context.Background(), target, false); err != nil {
+					t.Fatalf("SaveChanges of %d changed nodes: %v", n, err)
+				}
+				if got := target.Size(context.Background()); got != int64(n) {
+					t.Fatalf("a save of %d changed nodes left %d nodes in an empty target store", n, got)
+				}
+				w := refmpt.WalkFrom(mpt.GetRoot(), mptkit.GetterOf(target), false)
+				if len(w.Missing) > 0 || len(w.Problems) > 0 || len(w.Content) != keys {
+					t.Fatalf("after a save of %d changed nodes (%d keys) the target store resolves %d keys from the root, %d nodes missing, problems %v", n, keys, len(w.Content), len(w.Missing), w.Problems)
+				}
+			}
+		}
+		for _, must := range []int{1000, 2000} {
+			if !covered[must] && must < limit {
+				ev.Class("save-size-sweep-skipped-"+fmt.Sprint(must), 1)
+			}
+		}
+		ev.Case(fmt.Sprintf("save-sweep/%d", len(covered)), true, "save-size-sweep")
+		ev.Extra("save_sizes_covered", len(covered))
+	})
+}
